@@ -14,7 +14,7 @@ CONSTANTS MIds, MVoters, MLearners, PreVoteOn, CheckQuorumOn,
 K0 == [election_tick |-> 3, heartbeat_tick |-> 1, max_size_per_msg |-> NoLimit, max_inflight |-> 2,
        check_quorum |-> CheckQuorumOn, pre_vote |-> PreVoteOn, skip_bcast_commit |-> FALSE, batch_append |-> FALSE,
        priority |-> 0, max_uncommitted_size |-> NoLimit, max_committed_size_per_ready |-> NoLimit,
-       max_apply_unpersisted_log_limit |-> 0, disable_proposal_forwarding |-> FALSE]
+       max_apply_unpersisted_log_limit |-> 0, disable_proposal_forwarding |-> FALSE, lease_read |-> FALSE]
 MCIds == MIds
 MCKnobs == [i \in MCIds |-> K0]
 MCTimeouts == [i \in MCIds |-> {2 + i}]
